@@ -15,7 +15,7 @@ CASES = {"quick": 1500, "thorough": 30000}
 MIN_CASES_PER_SHARD = 20
 CASE_TIMEOUT = 60
 RULE = ("one case = one integer-labelled random directed graph (3..12 nodes, one-way and two-way streets, anisotropic extent so that "
-        "axis mix-ups show, unit scale or ~1e7 offsets, bulk or single inserts) loaded in both backends, 6 boxes (random, the bounding "
+        "axis mix-ups show, unit scale or ~1e7 offsets, bulk or single inserts, repeated adds of an existing label with the same or other coordinates) loaded in both backends, 6 boxes (random, the bounding "
         "box, boxes with a node exactly on the border) and 2 traces x edge-state matcher configurations without distance cut-off. "
         "Non-trivial = >= 3 nodes and x-extent / y-extent differ by more than 2x; distinct = hash of the graph")
 ANCHORS = [("leuvenmapmatching/map/sqlite.py", "SqliteMap.bb"),
@@ -30,7 +30,7 @@ ANCHORS = [("leuvenmapmatching/map/sqlite.py", "SqliteMap.bb"),
            ("leuvenmapmatching/map/inmem.py", "InMemMap.edges_nbrto"),
            ("leuvenmapmatching/map/inmem.py", "InMemMap.bb")]
 FLOORS = {"box_queries": 1000, "border_boxes": 150, "match_pairs": 300, "match_pairs_complete": 100,
-          "nbr_queries": 1500, "single_insert_graphs": 50, "big_magnitude_graphs": 50, "bb_compared": 200}
+          "nbr_queries": 1500, "single_insert_graphs": 50, "big_magnitude_graphs": 50, "bb_compared": 200, "repeated_node_adds": 200}
 ASSUMPTIONS = ["matching is compared on index and best probability (1e-9 relative), not on the path: neighbour order differs between "
                "backends and ties may be broken differently",
                "matcher configurations have no max_dist / max_dist_init (unbounded initial radius), as the property states"]
@@ -73,7 +73,17 @@ def gen_case(rng, i, tier):
         cfg = gen.gen_cfg(rng, families=("simple", "distance"), width="maybe", cut=False)
         cfg["min_prob_norm"] = rng.choice([None, None, 0.5, 0.1, 0.001])
         cfgs.append(cfg)
-    return {"map": m, "boxes": boxes, "traces": traces, "cfgs": cfgs, "bulk": rng.random() < 0.6, "big": big}
+    # repeated adds of an existing label (OSM ways share nodes): both backends keep the FIRST location
+    dups = []
+    if rng.random() < 0.35:
+        labs = [l for l, _ in m["nodes"]]
+        for l in rng.sample(labs, min(len(labs), rng.randint(1, 3))):
+            p0 = c[l]
+            if rng.random() < 0.5:
+                dups.append([l, [p0[0], p0[1]]])
+            else:
+                dups.append([l, [p0[0] + rng.choice([-3.0, 2.5, 7.0]), p0[1] + rng.choice([1.5, -4.0, 0.0])]])
+    return {"map": m, "boxes": boxes, "traces": traces, "cfgs": cfgs, "bulk": rng.random() < 0.6, "big": big, "dups": dups}
 
 
 def close(a, b):
@@ -97,6 +107,13 @@ def check_case(ctx, case):
     im = build.make_inmem(m)
     sm = build.make_sqlite(m, ctx.scratch, bulk=case["bulk"])
     ctx.evaluated()
+    for l, loc in case.get("dups", []):
+        ctx.count("repeated_node_adds")
+        im.add_node(l, (loc[0], loc[1]))
+        try:
+            sm.add_node(l, (loc[0], loc[1]), ignore_doubles=True)
+        except Exception as e:
+            ctx.violation(f"C12:repeated-add_node-raises-{type(e).__name__}:sqlite", case, repr(e))
     if not case["bulk"]:
         ctx.count("single_insert_graphs")
     if case["big"]:
